@@ -2,6 +2,81 @@
 from rules import c05, lib_coro, lib_core, lib_head, lib_ready
 
 
+def check_promise_forms(ctx, fb, rule, cfg):
+    """R-PROMISE: what the coroutine machinery stores / returns, per PromiseType<V, E, Lazy, Shared> instantiation:
+       initial_suspend   suspends (suspend_always) exactly for the lazy (Task) kind
+       unhandled_exception   stores std::current_exception()
+       return_value(x)   stores its argument; return_value(Unit) stores a value (std::in_place)
+       await_resume of the value-carrying awaiters returns Result::Ok() of the awaited result (which rethrows)"""
+    P = 'yaclib::detail::PromiseType'
+    n = 0
+    for f in fb.fn.values():
+        if f.clsq != P or f.cfg is None:
+            continue
+        lazy = len(f.cta) >= 4 and f.cta[2] in ('true', '1')
+        tag = ' :: ' + f.cls[:90]
+        if f.n == 'initial_suspend':
+            key = 'R-PROMISE initial_suspend'
+            ctx.instance(rule, key + tag, dict(lazy=lazy, returns=f.ret))
+            n += 1
+            always = f.ret.endswith('suspend_always')
+            never = f.ret.endswith('suspend_never')
+            if not (always or never):
+                ctx.broken('R-PROMISE: initial_suspend of %s returns %s' % (f.cls[:80], f.ret))
+            if always != lazy:
+                ctx.report(rule, key, f.where, 'a %s coroutine %s at its initial suspend point' % (
+                    'Task (lazy)' if lazy else 'Future / SharedFuture (eager)',
+                    'does not suspend: it runs before the Task is started' if lazy else
+                    'suspends: nothing ever starts it'), 'instantiation: ' + f.full[:300])
+        elif f.n == 'unhandled_exception':
+            key = 'R-PROMISE unhandled_exception'
+            ctx.instance(rule, key + tag, None)
+            n += 1
+            stores = [c for c in f.calls() if c['cn'].split('::')[-1] == 'Store']
+            ok = len(stores) == 1 and any(f.nodes[d].get('cn') == 'std::current_exception'
+                                          for a in stores[0].get('args', []) for d in [f.strip(a)] + list(f.descendants(a)))
+            if not ok:
+                ctx.report(rule, key, f.where, 'an exception escaping the coroutine body must become its Exception '
+                           'state (Store(std::current_exception()))', 'instantiation: ' + f.full[:300])
+        elif f.n == 'return_value':
+            key = 'R-PROMISE return_value'
+            ctx.instance(rule, key + tag, None)
+            n += 1
+            stores = [c for c in f.calls() if c['cn'].split('::')[-1] == 'Store']
+            ok = len(stores) == 1 and len(stores[0].get('args', [])) == 1
+            if ok:
+                a = stores[0]['args'][0]
+                refs = [f.nodes[d] for d in [f.strip(a)] + list(f.descendants(a))]
+                unit = f.params and f.locals[f.params[0]]['t'].endswith('Unit')
+                if unit:
+                    ok = any(x.get('dn') == 'std::in_place' for x in refs)
+                else:
+                    ok = any(x['k'] == 'DeclRefExpr' and x.get('id') in f.params for x in refs)
+            if not ok:
+                ctx.report(rule, key, f.where, 'co_return must store its operand as the coroutine\'s Result (one '
+                           'Store of the argument; std::in_place for Unit)', 'instantiation: ' + f.full[:300])
+    for f in fb.fn.values():
+        if f.n != 'await_resume' or f.cfg is None or f.ret == 'void' or '/coro/detail/await_awaiter.hpp' not in f.file:
+            continue
+        key = 'R-PROMISE %s::await_resume' % f.clsq.split('::')[-1]
+        ctx.instance(rule, key + ' :: ' + f.cls[:90], None)
+        n += 1
+        rets = [x for x in f.own_nodes() if x['k'] == 'ReturnStmt' and x.get('ch')]
+        def is_ok_call(i):
+            j = f.resolve(i)
+            m = f.nodes[j] if j is not None and j >= 0 else None
+            while m is not None and m['k'] in ('ExprWithCleanups', 'MaterializeTemporaryExpr', 'CXXBindTemporaryExpr',
+                                               'CXXConstructExpr', 'ImplicitCastExpr') and (m.get('ch') or m.get('args')):
+                m = f.sn((m.get('args') or m.get('ch'))[0])
+            return m is not None and m.get('cn') == 'yaclib::Result::Ok'
+        # the returned expression IS the Ok() call on every return (a default value on some branch swallows the failure)
+        ok = bool(rets) and all(is_ok_call(r['ch'][0]) for r in rets)
+        if not ok:
+            ctx.report(rule, key, f.where, 'the value of a co_await is Result::Ok() of the awaited result (returns the '
+                       'value, rethrows the failure)', 'instantiation: ' + f.full[:300])
+    return n
+
+
 def run(ctx):
     fbs = ctx.facts(['K20', 'K20n', 'KF'], kinds=('probe', 'lib'), only=r'p_coro\.cpp$|src/algo|src/exe|src/lazy', tests=r'/test/',
                     quick_tests=r'unit/coro/(await|on|future_coro_traits)\.cpp')
@@ -22,10 +97,14 @@ def run(ctx):
     rmv = ctx.rule('R-MOVEOUT.site', '(shared with C06) an awaiter moves the awaited Result out of a core that is not '
                    'statically unique only behind GetRef() == 1: every later co_await / Get of the same SharedFuture '
                    'still receives the value', minimum=0)
+    rpr = ctx.rule('R-PROMISE', 'initial_suspend suspends exactly the lazy kind; unhandled_exception stores '
+                   'current_exception(); return_value stores its operand; value awaiters return Result::Ok()', minimum=12)
     rl = ctx.rule('R-LOOPCALLER', 'Here() of a callback object that is not a BaseCore returns nullptr on every path (the '
                   'Loop would call the returned core with that object as its caller)', minimum=15)
     for cfg, fb in sorted(fbs.items()):
         ctx.guard(lambda: lib_core.check_loop_caller(ctx, fb, rl))
+        if (ctx.guard(lambda: check_promise_forms(ctx, fb, rpr, cfg)) or 0) < 6:
+            ctx.guard(lambda: ctx.broken('R-PROMISE: PromiseType members not instantiated in %s' % cfg))
         ctx.guard(lambda: lib_core.check_move_sites(ctx, fb, rmv, lambda f: '/coro/' in f.file))
         seen = 0
         for f in sorted(fb.fn.values(), key=lambda f: f.full):
